@@ -86,7 +86,7 @@ PROPS = {
     "C11": {
         "level": "exploration",
         "race": True,
-        "level_text": "the same simulator built with -race; the scheduler's hand-offs are hidden from the race detector (runtime.RaceDisable around every kernel synchronisation, bookkeeping in //go:norace code), so the only happens-before edges it sees are the library's own and a serial, replayable schedule exposes every unordered conflicting access pair on the paths it executes; schedule exploration reaches the paths",
+        "level_text": "the same simulator built with -race; the scheduler's hand-offs are hidden from the race detector (runtime.RaceDisable around every kernel synchronisation, bookkeeping in //go:norace code), so the only happens-before edges it sees are the library's own and a serial, replayable schedule exposes every unordered conflicting access pair on the paths it executes; schedule exploration reaches the paths; workloads on the core resources, bus, router, group, wrapper, three hand-driven models and - by reflection - every discovered model server / memory device called directly by overlapping tasks",
         "level_note": TRUST + "; the Go race detector (a report is a definite race, a miss is possible: bounded shadow history, only executed paths); reports located purely in harness frames are harness trouble, never a verdict",
         "technique": "deterministic simulation under the Go race detector with the scheduler baton hidden (happens-before race detection over seeded serial schedules)",
         "rule": RULE_SCHED,
@@ -148,7 +148,7 @@ PROPS = {
     },
     "C10": {
         "level": "fault_enumeration",
-        "level_text": "cancellation and abandonment injected by scheduler-placed canceller tasks at every reachable step of Send/Listen/forwarding (random placement over many runs), at bus level and at resource level; exactly-once / order / no-stall / closed-after-cancel / no-leak oracles; quiescence and leaks decided by synctest, not by sleeping",
+        "level_text": "cancellation and abandonment injected by scheduler-placed canceller tasks at every reachable step of Send/Listen/forwarding (random placement over many runs), at bus level, at resource level, on the trait models' Pull adapters and on trait group subscriptions; exactly-once / order / no-stall / closed-after-cancel / no-leak oracles; quiescence and leaks decided by synctest, not by sleeping",
         "level_note": TRUST + "; a goroutine still blocked at the end of the bubble with a sc-golang frame on its stack is a leak; panics on internal goroutines kill the worker and are attributed to the run by the driver",
         "technique": "deterministic simulation with fault injection (cancel / abandon at scheduler-chosen points) + exactly-once, ordering, closure and goroutine-leak oracles at synctest quiescence",
         "rule": RULE_SCHED,
@@ -204,7 +204,7 @@ PROPS = {
     },
     "C02": {
         "level": "exploration",
-        "level_text": "seeded exploration of 2-4 writers interleaved at every hooked window of the optimistic read / change / lock / save / publish sequence; every history checked for linearizability against the reference model; trait-level read-modify-write (count deltas, enter/leave totals) and a trait whose writes continue in a goroutine of their own (brightness fades as scheduled tasks, clients calling while a fade ticks: an acknowledged later write is never overwritten); evidence over sampled schedules",
+        "level_text": "seeded exploration of 2-4 writers interleaved at every hooked window of the optimistic read / change / lock / save / publish sequence; every history checked for linearizability against the reference model; trait-level read-modify-write (count deltas, enter/leave totals) and a trait whose writes continue in a goroutine of their own (brightness fades as scheduled tasks, clients calling while a fade ticks: an acknowledged later write is never overwritten) and a model that deletes on its own (the hail keep-alive collector against concurrent refreshes); evidence over sampled schedules",
         "level_note": TRUST + "; porcupine v1.3.0 as linearizability checker; the reference model of DESIGN.md appendix A (validated against the implementation by C01)",
         "technique": "deterministic simulation (seeded scheduler over simhook windows) + porcupine linearizability check against an executable reference model + conservation checks",
         "rule": RULE_SCHED,
